@@ -269,7 +269,7 @@ func families(full bool) []group {
 	}
 	// 9. files: lengths x names x content patterns x with/without a field x auth
 	flens := []int{0, 1, 2, 511, 512, 513, 5000, 70000}
-	fnames := []BS{"a.txt", "dir/a.txt", `C:\dir\a.txt`, `a"b.txt`, `a\b.txt`, "a b.txt", "é.txt", "a;b=c.txt", "a%41.txt", "日本.bin", "", "\x80.txt", "a\r\nb.txt", "..", "x.tar.gz", "'a'.txt"}
+	fnames := []BS{"a.txt", "dir/a.txt", `C:\dir\a.txt`, `a"b.txt`, `a\b.txt`, `a\\b.txt`, `a\"b.txt`, "a b.txt", "é.txt", "a;b=c.txt", "a%41.txt", "", "日本.bin", "\x80.txt", "a\r\nb.txt", "..", "x.tar.gz", "'a'.txt"}
 	if !full {
 		flens = []int{0, 1, 511, 512, 513, 5000}
 		fnames = fnames[:12]
